@@ -295,11 +295,12 @@ def gen_l1_mask(t, fam, sform, shape, m0, m1, tier):
     return h
 
 
-def gen_l1_ix(t, fam, sform, shape, m1, tier):
-    """L1 for the index-vector read structs (symbolic index vectors of length 2, repeats allowed) and the x[:, cols] / x[:, mask] structs"""
+def gen_l1_ix(t, fam, sform, shape, m1, tier, K=2):
+    """L1 for the index-vector read structs (symbolic index vectors of length K, repeats allowed) and the x[:, cols] / x[:, mask] structs.
+    K = 3 exists because a vector of two entries cannot have an interior: a kernel that infers "consecutive run" from its end points
+    (seeded changes C03-3, C04-3) is only wrong for three or more entries."""
     R, C = shape
     N = R * C
-    K = 2
     mat = SHAPE_IDENT[sform]
     d = default_of(t)
     b = [sym_array(t, "src", N), "let sc = Ref::new(%s);" % mk_form(sform, t, "src", shape)]
@@ -373,7 +374,7 @@ def gen_l1_ix(t, fam, sform, shape, m1, tier):
     b.append("f.solve(); let v2 = f.out();")
     b.append("kani::cover!(true, \"VP:reached\");")
     b.append("forget(v); forget(v2); forget(f); forget(out); forget(sc);")
-    tag = ("c" + mask_txt(m1)) if m1 is not None else "ix"
+    tag = ("c" + mask_txt(m1)) if m1 is not None else ("ix" if K == 2 else "ix%d" % K)
     h = H("c03_l1_%s_%s_%s%dx%d_%s" % (fam.lower(), t.lower(), sform.lower(), R, C, tag), "    " + "\n    ".join(b), WHERE, domain="accept",
           key="L1/Access%s/%s/%s/%s" % (fam, t, sform, tag),
           desc="Access%s<%s> on a symbolic %dx%d %s, output allocated as the dispatch arm allocates it, %s: documented result shape, every element is the "
@@ -462,9 +463,12 @@ def plan(tier, seed):
         hs.append(gen_l1_mask(t, "2DRRVBU", "MD", (3, 2), m0, None, "quick" if kq % 2 == seed % 2 else "thorough"))
     for sform, shape in (("RD", (1, 3)), ("VD", (3, 1)), ("MD", (2, 2))):
         hs.append(gen_l1_ix(t, "1DVD", sform, shape, None, "quick" if sform == ["RD", "VD", "MD"][(seed + 1) % 3] else "thorough"))
+        hs.append(gen_l1_ix("u8", "1DVD", sform, shape, None, "quick" if sform == "VD" else "thorough", K=3))
     for fam in ("2DVDA", "2DVDS", "2DSVD", "2DRRVUU", "2DARV"):
         hs.append(gen_l1_ix(t, fam, "MD", (2, 3), None, "quick"))
         hs.append(gen_l1_ix("u8", fam, "MD", (3, 2), None, "thorough"))
+        # index vectors of three entries (an interior): 3x3 source so that every dimension has three positions
+        hs.append(gen_l1_ix("u8", fam, "MD", (3, 3), None, "quick" if fam in ("2DARV", "2DVDA", "2DSVD") else "thorough", K=3))
     for m1 in ((T_, F_, T_), (F_, T_, F_), (T_, T_, T_), (F_, T_, T_)):
         hs.append(gen_l1_ix(t, "2DARVB", "MD", (2, 3), m1, "quick" if m1 in ((T_, F_, T_), (F_, T_, F_)) else "thorough"))
     hs = [h for h in hs if h is not None]
